@@ -502,3 +502,146 @@ Example c48_nonvacuous :
   all main rest b = [(9, 2); (4, 3); (7, 1)]%N /\ get main b 9%N = Some 2%N /\
   all main rest (restrict main rest a (fun h => N.eqb h 7)) = [(7, 5)]%N.
 Proof. vm_compute. repeat split. Qed.
+
+(* ================= two blob types ================= *)
+Lemma proj_app t a b : proj t (a ++ b) = proj t a ++ proj t b.
+Proof. unfold proj. rewrite filter_app, map_app. reflexivity. Qed.
+
+Lemma projr_app t a b : projr t (a ++ b) = projr t a ++ projr t b.
+Proof. unfold projr. rewrite filter_app, map_app. reflexivity. Qed.
+
+Lemma projr_tag t t' (o : list (N * N)) :
+  projr t (map (fun e => ((t', fst e), snd e)) o) = if Bool.eqb t' t then o else [].
+Proof.
+  unfold projr. induction o as [|[k v] o IH]; cbn [map filter fst snd]; [destruct (Bool.eqb t' t); reflexivity|].
+  destruct (Bool.eqb t' t) eqn:E; cbn [map fst snd]; rewrite IH; reflexivity.
+Qed.
+
+Lemma projr_cons t t' k v L :
+  projr t (((t', k), v) :: L) = if Bool.eqb t' t then (k, v) :: projr t L else projr t L.
+Proof. unfold projr. cbn [filter fst]. destruct (Bool.eqb t' t); reflexivity. Qed.
+
+Lemma proj_cons t t' k r : proj t ((t', k) :: r) = if Bool.eqb t' t then k :: proj t r else proj t r.
+Proof. unfold proj. cbn [filter fst]. destruct (Bool.eqb t' t); reflexivity. Qed.
+
+(* the type-t view of the interleaved Values() loop is the one-type loop over the type-t entries *)
+Lemma scan2_proj main2 a t : forall vals sD sT,
+  projr t (scan2 main2 a vals sD sT) =
+  scan (proj t main2) (sel a t) (proj t vals) (if t then sT else sD).
+Proof.
+  induction vals as [|[t' k] r IH]; intros sD sT; [reflexivity|].
+  cbn [scan2 fst snd]. rewrite proj_cons.
+  destruct (Bool.eqb t' t) eqn:E.
+  - apply Bool.eqb_prop in E. subst t'. cbn [scan].
+    destruct (assoc k (s_over (sel a t))); [apply IH|].
+    destruct (slot (proj t main2) (sel a t) k) as [i|]; [|apply IH].
+    destruct (nth i (s_arr (sel a t)) None) as [v|]; [|apply IH].
+    destruct (memn i (if t then sT else sD)); [apply IH|].
+    rewrite projr_cons, Bool.eqb_reflx.
+    f_equal. destruct t; rewrite IH; reflexivity.
+  - assert (Hskip : forall v rest, projr t (((t', k), v) :: rest) = projr t rest).
+    { intros v rest. rewrite projr_cons, E. reflexivity. }
+    destruct (assoc k (s_over (sel a t'))); [apply IH|].
+    destruct (slot (proj t' main2) (sel a t') k) as [i|]; [|apply IH].
+    destruct (nth i (s_arr (sel a t')) None) as [v|]; [|apply IH].
+    destruct (memn i (if t' then sT else sD)); [apply IH|].
+    rewrite Hskip. destruct t', t; try discriminate; rewrite IH; reflexivity.
+Qed.
+
+Lemma all2_proj main2 rest2 a t :
+  projr t (all2 main2 rest2 a) = all (proj t main2) (proj t rest2) (sel a t).
+Proof.
+  unfold all2, all. rewrite !projr_app, !projr_tag, scan2_proj, proj_app.
+  destruct t; cbn [Bool.eqb sel app]; reflexivity.
+Qed.
+
+Lemma projr_in t L k v : In (k, v) (projr t L) <-> In ((t, k), v) L.
+Proof.
+  unfold projr. rewrite in_map_iff. split.
+  - intros ([[t' k'] v'] & E & Hin). apply filter_In in Hin as [Hin Ht]. cbn [fst snd] in *.
+    apply Bool.eqb_prop in Ht. inversion E; subst. exact Hin.
+  - intro Hin. exists ((t, k), v). split; [reflexivity|]. apply filter_In. split; [exact Hin|]. cbn. apply Bool.eqb_reflx.
+Qed.
+
+Lemma nodup2 (L : list (handle2 * N)) :
+  NoDup (map fst (projr false L)) -> NoDup (map fst (projr true L)) -> NoDup (map fst L).
+Proof.
+  induction L as [|[[t k] v] L IH]; intros Hf Ht; [constructor|].
+  rewrite projr_cons in Hf, Ht. cbn [map fst]. constructor.
+  - intro Hin. apply in_map_iff in Hin as ([[t' k'] v'] & E & Hin). cbn [fst] in E. inversion E; subst t' k'.
+    apply projr_in in Hin. apply (in_map fst) in Hin. cbn [fst] in Hin.
+    destruct t; cbn [Bool.eqb] in Hf, Ht; [inversion Ht | inversion Hf]; contradiction.
+  - apply IH; destruct t; cbn [Bool.eqb] in Hf, Ht; auto; [inversion Hf | inversion Ht]; assumption.
+Qed.
+
+Lemma projr_length (L : list (handle2 * N)) : length L = length (projr false L) + length (projr true L).
+Proof.
+  unfold projr. rewrite !map_length. induction L as [|[[t k] v] L IH]; [reflexivity|].
+  cbn [filter fst length]. destruct t; cbn [Bool.eqb length]; lia.
+Qed.
+
+Lemma sel_upd_sel a t x t' : sel (upd_sel a t x) t' = if Bool.eqb t t' then x else sel a t'.
+Proof. destruct t, t'; reflexivity. Qed.
+
+(* each component of the two-typed set evolves like a one-typed set under the ops of its type *)
+Lemma run2_sel main2 t : forall ops a,
+  sel (run2 main2 a ops) t = run (proj t main2) (sel a t) (ops_of t ops).
+Proof.
+  unfold run2, run. induction ops as [|[h v|h] ops IH]; intros a; cbn [fold_left ops_of apply2]; [reflexivity| |].
+  - rewrite IH. unfold set2. rewrite sel_upd_sel. destruct (Bool.eqb (fst h) t) eqn:E; [|reflexivity].
+    apply Bool.eqb_prop in E. subst t. reflexivity.
+  - rewrite IH. unfold delete2. rewrite sel_upd_sel. destruct (Bool.eqb (fst h) t) eqn:E; [|reflexivity].
+    apply Bool.eqb_prop in E. subst t. reflexivity.
+Qed.
+
+Lemma sel_new capD capT t : sel (new_set2 capD capT) t = new_set (if t then capT else capD).
+Proof. destruct t; reflexivity. Qed.
+
+(* mixed-type sets over any MasterIndex content, in the real enumeration order *)
+Lemma model2_spec main2 rest2 capD capT ops :
+  let a := run2 main2 (new_set2 capD capT) ops in
+  NoDup (map fst (all2 main2 rest2 a)) /\
+  (forall h v, In (h, v) (all2 main2 rest2 a) <-> assoc (snd h) (ref_run (ops_of (fst h) ops)) = Some v) /\
+  len2 main2 rest2 a = length (ref_run (ops_of false ops)) + length (ref_run (ops_of true ops)) /\
+  (forall h, get2 main2 a h = assoc (snd h) (ref_run (ops_of (fst h) ops))).
+Proof.
+  intro a.
+  assert (Hsel : forall t, sel a t = run (proj t main2) (new_set (if t then capT else capD)) (ops_of t ops)).
+  { intro t. unfold a. rewrite run2_sel, sel_new. reflexivity. }
+  assert (Hall : forall t, projr t (all2 main2 rest2 a) =
+            all (proj t main2) (proj t rest2) (run (proj t main2) (new_set (if t then capT else capD)) (ops_of t ops))).
+  { intro t. rewrite all2_proj, Hsel. reflexivity. }
+  split; [|split; [|split]].
+  - apply nodup2; rewrite Hall; apply model_all.
+  - intros [t k] v. cbn [fst snd]. rewrite <- projr_in, Hall. apply model_all.
+  - unfold len2. rewrite projr_length, !Hall. fold (len (proj false main2) (proj false rest2)
+      (run (proj false main2) (new_set capD) (ops_of false ops))).
+    fold (len (proj true main2) (proj true rest2) (run (proj true main2) (new_set capT) (ops_of true ops))).
+    rewrite !model_len. reflexivity.
+  - intros [t k]. unfold get2. cbn [fst snd]. rewrite Hsel. apply (proj2 (proj2 (model_spec _ _ _))).
+Qed.
+
+Definition case2_spec (c : case2) : Prop :=
+  let mD := ref_run (ops_of false (c2_ops c)) in
+  let mT := ref_run (ops_of true (c2_ops c)) in
+  NoDup (map fst (encl (c2_all c))) /\ c2_len c = N.of_nat (length mD + length mT) /\
+  same_mapP (projr false (c2_all c)) mD /\ same_mapP (projr true (c2_all c)) mT.
+
+Lemma check_C48_2_iff c : check_C48_2 c = true <-> case2_spec c.
+Proof.
+  unfold check_C48_2, check_code2, case2_spec. cbn zeta. rewrite Nat.eqb_eq.
+  rewrite !ifneg by discriminate. rewrite nodupb_iff, N.eqb_eq, !same_map_iff. tauto.
+Qed.
+
+(* non-vacuity: data blob 7 is in idx[0] and again in the in-memory index, with a tree entry of
+   idx[0] enumerated in between; both 7s are the same member and are reported once *)
+Example c48_two_typed_nonvacuous :
+  let main2 := [(false, 7); (false, 9); (true, 7)]%N in
+  let rest2 := [(false, 7); (true, 7); (true, 3)]%N in
+  let a := run2 main2 (new_set2 3 2) [OSet2 (false, 7) 1; OSet2 (true, 7) 2; OSet2 (true, 3) 4; OSet2 (false, 7) 5]%N in
+  all2 main2 rest2 a = [((true, 3), 4); ((false, 7), 5); ((true, 7), 2)]%N /\ len2 main2 rest2 a = 3 /\
+  check_case2 (mk2 main2 rest2 3 2 [OSet2 (false, 7) 1; OSet2 (true, 7) 2; OSet2 (true, 3) 4; OSet2 (false, 7) 5]%N
+                   3 [((false, 7), 5); ((true, 7), 2); ((true, 3), 4)]%N) = 0 /\
+  check_case2 (mk2 main2 rest2 3 2 [OSet2 (false, 7) 1; OSet2 (true, 7) 2; OSet2 (true, 3) 4; OSet2 (false, 7) 5]%N
+                   4 [((false, 7), 5); ((true, 7), 2); ((false, 7), 5); ((true, 3), 4)]%N) = 2.
+Proof. vm_compute. repeat split. Qed.
